@@ -31,8 +31,12 @@ INVALID = [
 ]
 
 VALID.append("subroutine ok5\n  y = tan(z) + abs(w)\nend subroutine ok5\nsubroutine q\n  y = abs(w)\nend subroutine q\n")
+# parses abandoned by the reader's error() (SystemExit) while a scoping unit is still open
+INVALID.append("module m5\n  integer :: sin\ncontains\n  subroutine a5\n    integer :: tan\n  end subroutine b5\nend module m5\n")
+INVALID.append("subroutine s6\n  real :: tan\n  oops:\nend subroutine s6\n")
+VALID.append("program p7\n  x = sin(1.0) + tan(2.0)\nend program p7\n")
 
-LETTERS = ["c03", "c08", "v0", "v1", "v2", "v3", "i0", "i1", "i2", "i3", "i4"]
+LETTERS = ["c03", "c08", "v0", "v1", "v2", "v3", "v4", "i0", "i1", "i2", "i3", "i4", "i5", "i6"]
 
 
 def _table_names(txt):
@@ -172,7 +176,7 @@ def run_case(case):
 def cases(tier, seed, refs):
     out = []
     maxlen = 3 if tier != "thorough" else 4
-    finals = [("f2003", "v1"), ("f2008", "v0"), ("f2008", "v1"), ("f2003", "v2"), ("f2008", "i0"), ("f2003", "i2")]
+    finals = [("f2003", "v1"), ("f2008", "v0"), ("f2008", "v1"), ("f2003", "v2"), ("f2008", "i0"), ("f2003", "i2"), ("f2008", "v4"), ("f2003", "v4")]
     rng = random.Random(seed)
     k = 0
     for n in range(0, maxlen + 1):
